@@ -355,7 +355,12 @@ Definition is_err (o : outcome) : bool :=
 
 (* one attempt's inputs: transport outcome and what each request-level after-response
    middleware returns on this attempt (registration order) *)
-Record ain := mkAin { a_out : outcome; a_after : list (option Z) }.
+Record ain := mkAin {
+  a_out : outcome;
+  a_after : list (option Z);
+  a_wait_cancel : bool    (* the request's context ends while the retry after this attempt is being
+                             prepared (retry hooks, interval function, the wait itself) *)
+}.
 
 Fixpoint first_some (l : list (option Z)) : option Z :=
   match l with
@@ -443,6 +448,12 @@ Fixpoint do_loop_gen (pinned : bool) (ro : option ropt) (k : Z) (s : rstate) (in
                   let hcalls := map (fun h => mkCall (hk_id h) att jv) (rev (ro_hooks o)) in
                   let s4 := run_hooks (ro_hooks o) s3 in
                   let icall := mkCall (ro_interval o) (r_attempt s4) jv in
+                  if a_wait_cancel a then
+                    (* sleepContext reports the ended context (also for a zero interval): err =
+                       ctx.Err(), resp.Err = err, return - no further attempt *)
+                    add_calls ccalls hcalls [icall]
+                      (mkResult [w] [] [] [] (mkView (v_status v) (Some 3%Z)) (r_attempt s4) EndNormal)
+                  else
                   cons_wire w (add_calls ccalls hcalls [icall] (do_loop_gen pinned ro (k + 1) s4 rest))
           end
       end
